@@ -2,7 +2,9 @@
 
 Clauses decided (necessary conditions visible in the code's shape):
 R1 fresh names: a directory not fixed by the binding is `join(<allocated target>.workdir, random_name())`;
-   `random_name` draws a `uuid.uuid4()` on every call (no decorator, no cached value); `_set_job_directories` names each
+   `random_name` draws a `uuid.uuid4()` on every call (no decorator, no global state; every returned value is computed
+   from a uuid4 drawn in that call, followed through local temporaries, every alternative of a conditional / `or`, and a
+   parameterless helper of the program that is itself fresh per call); `_set_job_directories` names each
    of the three job directories through its *own* `_get_directory` call, keyed on the same field of the same job; the
    only pre-set values are the step-level directories handed to `Job(...)` (written once, in `ScheduleStep.__init__`).
 R2 order in `ScheduleStep._schedule` (dominance on the CFG): awaited `scheduler.schedule` precedes awaited
@@ -121,6 +123,47 @@ def _loc_binder(f, bs, is_locations):
 # --------------------------------------------------------------------------- R1
 
 
+def _draws_uuid(p, f, e, depth=3, seen=frozenset()) -> bool:
+    """`e` is computed from a `uuid.uuid4()` drawn during this call of `f`: it is the call itself, a call of a
+    parameterless program function that is itself fresh per call (helper extraction; bounded inlining), a local of `f`
+    whose *every* definition is a plain assignment / walrus of such an expression (`_ret = str(uuid.uuid4()); return
+    _ret`), or an expression one of whose operands is (`str(..)`, `.hex`, slicing, f-string, concatenation).  Of a
+    conditional expression / `or` / `and` every alternative must be.  Parameters, module-level names and anything else
+    that can outlive the call are not fresh."""
+    if e is None or isinstance(e, ast.Lambda):
+        return False
+    if isinstance(e, ast.Call):
+        if resolves_to(p, f, e, "uuid.uuid4"):
+            return True
+        qs = p.resolve_call(f, e, fanout=False)
+        callee = p.functions.get(qs[0]) if depth > 0 and len(qs) == 1 else None
+        if callee is not None and callee is not f and not callee.is_async and not callee.params \
+                and _fresh_per_call(p, callee, depth - 1):
+            return True
+    if isinstance(e, ast.Name):
+        if e.id in seen or not isinstance(e.ctx, ast.Load):
+            return False
+        ds = defs_of(f, e.id)
+        return bool(ds) and all(d.kind in ("assign", "walrus") and d.index is None
+                                and _draws_uuid(p, f, d.value, depth, seen | {e.id}) for d in ds)
+    if isinstance(e, ast.IfExp):
+        return _draws_uuid(p, f, e.body, depth, seen) and _draws_uuid(p, f, e.orelse, depth, seen)
+    if isinstance(e, ast.BoolOp):
+        return all(_draws_uuid(p, f, v, depth, seen) for v in e.values)
+    if isinstance(e, ast.NamedExpr):
+        return _draws_uuid(p, f, e.value, depth, seen)
+    return any(_draws_uuid(p, f, c, depth, seen) for c in ast.iter_child_nodes(e))
+
+
+def _fresh_per_call(p, f, depth=3) -> bool:
+    """Every call of `f` returns a value drawn from a new uuid4: no decorator (cache), no global / nonlocal state, and
+    every return value is computed from a uuid4 drawn in this call (followed through temporaries)."""
+    rets = [n for n in f.body_nodes() if isinstance(n, ast.Return)]
+    return bool(rets) and not f.decorators \
+        and not any(isinstance(n, (ast.Global, ast.Nonlocal)) for n in f.body_nodes()) \
+        and all(_draws_uuid(p, f, r.value, depth) for r in rets)
+
+
 def r1(ctx):
     p = ctx.prog
     # ---- _get_directory
@@ -165,10 +208,7 @@ def r1(ctx):
     rn = p.func(RANDOM)
     rets = [n for n in rn.body_nodes() if isinstance(n, ast.Return)]
     ctx.require(bool(rets), "C15.R1: random_name has no return")
-    fresh = not rn.decorators and not rn.params and all(
-        r.value is not None and any(isinstance(x, ast.Call) and resolves_to(p, rn, x, "uuid.uuid4") for x in ast.walk(r.value))
-        for r in rets
-    ) and not any(isinstance(n, (ast.Global, ast.Nonlocal)) for n in rn.body_nodes())
+    fresh = not rn.params and _fresh_per_call(p, rn)
     ctx.ob("R1", "random_name draws uuid.uuid4() on every call (no decorator, no cached value)", fresh, func=rn, node=rn.node,
            instance="random_name:fresh", message="random_name is cached / not uuid4 based: two jobs can get the same directory")
     # ---- _set_job_directories: one _get_directory call per field, keyed on the same field
@@ -601,6 +641,15 @@ VARIANTS = [
     V("random_name cached", UFILE, RANDOM, "def random_name()", "@functools.cache\ndef random_name()", "R1", control=True),
     V("random_name returns a module constant", UFILE, RANDOM, "return str(uuid.uuid4())", "return _NAME", "R1",
       append="_NAME = str(uuid.uuid4())"),
+    V("random_name returns a module constant through a temporary", UFILE, RANDOM, "return str(uuid.uuid4())",
+      "_sf_ret = _NAME\n    return _sf_ret", "R1", append="_NAME = str(uuid.uuid4())"),
+    V("random_name draws a new name only while none was drawn before", UFILE, RANDOM, "return str(uuid.uuid4())",
+      "_sf_ret = _NAMES[0] if _NAMES else str(uuid.uuid4())\n    _NAMES.append(_sf_ret)\n    return _sf_ret", "R1",
+      append="_NAMES = []"),
+    V("random_name temporary rebound to a constant on a branch", UFILE, RANDOM, "return str(uuid.uuid4())",
+      "_sf_ret = str(uuid.uuid4())\n    if _NAME:\n        _sf_ret = _NAME\n    return _sf_ret", "R1", append="_NAME = 'job'"),
+    V("random_name delegates to a cached helper", UFILE, RANDOM, "return str(uuid.uuid4())", "return _new_name()", "R1",
+      append="@functools.cache\ndef _new_name():\n    return str(uuid.uuid4())"),
     V("directory joined to another workdir", SFILE, GETDIR, "target.workdir", "target.deployment.workdir", "R1"),
     V("output directory named from the input field", SFILE, SETDIRS,
       "job.output_directory = _get_directory(path_processor, job.output_directory, allocation.target)",
@@ -684,4 +733,11 @@ VARIANTS = [
       _MK_COMP.replace(", job.tmp_directory]", "]"), "R3"),
     V("conditional expression in _get_directory", SFILE, GETDIR, "return directory or path_processor.join(target.workdir, utils.random_name())",
       "fresh = path_processor.join(target.workdir, utils.random_name())\n    return directory if directory else fresh", None),
+    # ---- random_name: the drawn value returned through temporaries / a helper (fx5: tempret)
+    V("random_name returns through a temporary", UFILE, RANDOM, "return str(uuid.uuid4())",
+      "_sf_ret = str(uuid.uuid4())\n    return _sf_ret", None),
+    V("random_name draws the uuid into a local, converts it in a second one", UFILE, RANDOM, "return str(uuid.uuid4())",
+      "drawn = uuid.uuid4()\n    text = str(drawn)\n    return text", None),
+    V("random_name delegates to an extracted helper", UFILE, RANDOM, "return str(uuid.uuid4())", "return _new_name()", None,
+      append="def _new_name():\n    _sf_ret = str(uuid.uuid4())\n    return _sf_ret"),
 ]
